@@ -39,7 +39,10 @@ type c15Case struct {
 	// Ideal: idealised transport that notices the end of the request context
 	// at once in every state (default: HTTP/2 semantics as measured on
 	// net/http, see memhttp.Transport.PromptCancel).
-	Ideal  bool  `json:"ideal,omitempty"`
+	Ideal bool `json:"ideal,omitempty"`
+	// Chunk: the transport takes the request body in pieces of this many bytes
+	// (0 = 32 KiB), so the context can end in the middle of a Send.
+	Chunk  int   `json:"chunk,omitempty"`
 	Prefix []int `json:"prefix,omitempty"`
 }
 
@@ -56,6 +59,9 @@ func (k c15Case) key() string {
 	}
 	if k.Ideal {
 		x += "+ideal"
+	}
+	if k.Chunk > 0 {
+		x += fmt.Sprintf("+chunk%d", k.Chunk)
 	}
 	return fmt.Sprintf("%s/%s/%s/%s/%s/r%ds%d/d%d", k.Proto, k.Kind, k.ReqMode, k.Client, x, k.HRecv, k.HSend, k.Bound)
 }
@@ -137,7 +143,7 @@ func c15Body(k c15Case, s *bsched.Sched) any {
 		obs.HandlerErr = ctx.Err().Error()
 		return ctx.Err()
 	})
-	tr := &memhttp.Transport{Handler: h, Proto: 2, ReqMode: k.ReqMode, Gate: s.Gate, PromptCancel: k.Ideal}
+	tr := &memhttp.Transport{Handler: h, Proto: 2, ReqMode: k.ReqMode, Gate: s.Gate, PromptCancel: k.Ideal, ReqChunk: k.Chunk}
 	cl := NewClient(tr, Cfg{Proto: k.Proto, Comp: CompNone})
 	var ctx context.Context
 	var cancel context.CancelFunc
@@ -387,6 +393,14 @@ func c15Cases(thorough bool) []c15Case {
 	for _, k := range append([]c15Case(nil), out...) {
 		if k.ReqMode == memhttp.ReqEager {
 			k.Ideal = true
+			out = append(out, k)
+		}
+	}
+	// the transport takes the request in 3-byte pieces: the context can end inside a Send
+	for _, k := range append([]c15Case(nil), out...) {
+		if k.ReqMode == memhttp.ReqEager && k.Ideal && !k.RR && !k.Cause && k.Bound == 1 &&
+			(k.Kind != KBidi || (strings.Contains(k.Client, "S") && (len(k.Client) <= 2 || thorough))) {
+			k.Chunk = 3
 			out = append(out, k)
 		}
 	}
